@@ -356,14 +356,42 @@ def w_5060c(_):
     return acc.res()
 
 
+def seq_thunks(tag=None):
+    """the same MB under different headers (DF20 at two altitudes, DF21), mrar on/off, and other registers in between."""
+    th = []
+    mraw = 195                                          # Mach 0.78
+    ias35 = int(round(I.mach2cas(mraw * 2.048 / 512, 35000 * I.FT) / I.KTS))
+    mb = CF.bds60(ias=(1, 0, ias35), mach=(1, 0, mraw))
+    hi = carrier(mb, 0, df=20, ac13=AL.q1_encode((35000 + 1000) // 25))
+    lo = carrier(mb, 0, df=20, ac13=AL.q1_encode((5000 + 1000) // 25))
+    d21 = carrier(mb, 0, df=21)
+    th.append(("bds60_df20_consistent_alt", (lambda m=hi: judge("gate60", (m, True)) or judge("complete", ("BDS60", m)))))
+    th.append(("bds60_df20_inconsistent_alt", (lambda m=lo: judge("gate60", (m, False)) or judge("consist", (m, False)))))
+    th.append(("bds60_df21", (lambda m=d21: judge("complete", ("BDS60", m)))))
+    th.append(("bds50", (lambda m=carrier(CF.bds50(), 1, df=20): judge("complete", ("BDS50", m)))))
+    th.append(("bds40_mrar", (lambda m=carrier(CF.bds40(), 2, df=21): judge("consist", (m, True)) or judge("complete", ("BDS40", m)))))
+    bad = carrier(CF.bds50(gs=(1, 0, 301), tas=(1, 0, 250)), 0, df=21)
+    th.append(("bds50_gs_out_of_envelope", (lambda m=bad: judge("sound", ("BDS50", "envelope GS>600kt", m)))))
+    return th
+
+
+def w_seqx(depth):
+    from engine.util import explore_sequences
+    acc = Acc()
+    explore_sequences(acc, seq_thunks(), depth, "infer")
+    return acc.res()
+
+
 def w_any(t):
+    if t[0] == "q":
+        return w_seqx(t[1])
     if t[0] == "y":
         return w_5060c(None)
     return {"t": w_total, "s": w_sound, "c": w_complete, "g": w_gate, "x": w_5060}[t[0]](t[1])
 
 
 def run(ctx):
-    tasks = [("t", [df]) for df in range(32)] + [("g", None), ("y", None)]
+    tasks = [("t", [df]) for df in range(32)] + [("g", None), ("y", None), ("q", 4 if ctx.thorough else 3)]
     tasks += [("s", c) for c in chunks(sound_cases(), 60)]
     amb = []
     for reg in REGS:
@@ -382,5 +410,9 @@ def run(ctx):
 
 
 def replay(case):
+    if case["kind"] == "seqx":
+        from engine.util import replay_sequence
+        s = replay_sequence(seq_thunks(), case["sequence"])
+        return [(s, case)] if s else []
     s = judge(case["kind"], tuple(case["p"]))
     return [(s, case)] if s else []
